@@ -74,6 +74,7 @@ def run_job(job):
         s['case'] = case
         s['functions'] = dict(I.used)
         s['by_contract'] = sorted(I.used_contracts)
+        s['loop_contracts'] = sorted(I.used_loop_contracts)
         s['summaries_used'] = sorted(I.used_summaries)
         s['wall'] = time.time() - t0
         s['error'] = None
@@ -349,6 +350,7 @@ def main(argv=None):
                 'discharged_by_backend': by_backend,
                 'functions_under_contract': functions,
                 'functions_by_assumed_contract': sorted(set(x for r in ok for x in r['by_contract'])),
+                'loops_by_invariant': sorted(set(x for r in ok for x in r.get('loop_contracts', []))),
                 'builtin_summaries_used': sorted(set(x for r in ok for x in r['summaries_used'])),
                 'jobs': len(jobs),
                 'paths': sum(r['paths'] for r in ok),
